@@ -63,9 +63,11 @@ def base_seed() -> int:
 
 
 def run_seed(prop: str, base: int, i: int) -> int:
-    """64-bit seed of run `i` of a batch: one integer decides everything."""
+    """64-bit seed of run `i` of a batch: one integer decides everything.  The low 16 bits are the
+    run's index in the batch, so a generator can stratify (cycle through run shapes and through the
+    workload) instead of leaving coverage of a short batch to chance."""
     h = hashlib.sha256(f'{prop}:{base}:{i}'.encode()).digest()
-    return int.from_bytes(h[:8], 'big')
+    return (int.from_bytes(h[:8], 'big') & ~0xFFFF) | (i & 0xFFFF)
 
 
 def digest(obj) -> str:
